@@ -568,6 +568,19 @@ Proof.
     + exists e. split; [exact He | exact Hfl].
 Qed.
 
+(** A simple expression ends where it ends, WHATEVER follows: in [CTX ARG op REST] the simple parser
+    that reads the argument of a primitive leaves [op REST] to the outer parser. *)
+Corollary simple_argument_ends (g : grammar) (ops : list N) (strict : bool) :
+  wfg g ops ->
+  forall (d : dexpr) (post : list tok),
+    rendering_ok g true false d = true ->
+    exists e, parse_simple g strict false (render d ++ post) = Ok e post /\ flatten e = flatten (erase d).
+Proof.
+  intros G d post R.
+  apply (parse_complete g ops strict G true false d post R).
+  rewrite (n_levels_L g ops G). apply (follow_L g ops G).
+Qed.
+
 (** Redundant parentheses and permitted line breaks change nothing: two permitted renderings of
     trees that are equal modulo flatten are read as trees that are equal modulo flatten. *)
 Corollary layout_irrelevant (g : grammar) (ops : list N) (strict : bool) :
